@@ -151,7 +151,7 @@ def run(ctx: Check, tree: Tree) -> None:
     ctx.not_decided += ["agreement with an independent boost-and-rotate implementation (numerical)", "agreement with the Dalitz closed form formulate_scattering_angle (see C19 for its own geometry)"]
     ctx.assumptions += ["qrules Topology.get_originating_final_state_edge_ids returns the final-state edges below a node"]
     producers = producers_of_adapter(ctx, tree)
-    check_prov(ctx, tree, producers, min_stores=5)
-    check_slices(ctx, tree)
-    check_definitions(ctx, tree)
-    check_mass_naming(ctx, tree)
+    ctx.section(check_prov, ctx, tree, producers, min_stores=5)
+    ctx.section(check_slices, ctx, tree)
+    ctx.section(check_definitions, ctx, tree)
+    ctx.section(check_mass_naming, ctx, tree)
